@@ -388,6 +388,11 @@ int sbdf_read_7bitpacked_int32(FILE* f, int* v)
 		if ((uch & 0x80) == 0x80)
 		{
 			shl += 7;
+			if (shl > 28)
+			{
+				/* a 32-bit value has at most five groups */
+				return SBDF_ERROR_INVALID_SIZE;
+			}
 		}
 		else
 		{
